@@ -1,6 +1,7 @@
 //! Shared by c02 / c04 (included with `#[path]` after `mod quilgen`): abstraction of the real AST
 //! into the model AST of coq/Model/PrintParse.v for the instruction kinds that quilgen::instr (the
-//! C01 fragment) leaves out: PULSE / CAPTURE / RAW-CAPTURE, CALL.
+//! C01 fragment) leaves out: PULSE / CAPTURE / RAW-CAPTURE, CALL, and (as `item`) the block definitions
+//! DEFCAL, DEFCAL MEASURE, DEFCIRCUIT, DEFFRAME, DEFWAVEFORM.
 #![allow(dead_code)]
 use crate::quilgen::{self, Interner};
 use quil_rs::instruction::*;
@@ -139,5 +140,113 @@ pub fn instr(i: &Instruction, it: &mut Interner) -> Option<String> {
             format!("ICall {} [{}]", quilgen::ident(&c.name, it), args?.join("; "))
         }
         _ => return quilgen::instr(i, it),
+    })
+}
+
+pub fn is_definition(i: &Instruction) -> bool {
+    matches!(
+        i,
+        Instruction::CalibrationDefinition(_)
+            | Instruction::MeasureCalibrationDefinition(_)
+            | Instruction::CircuitDefinition(_)
+            | Instruction::GateDefinition(_)
+            | Instruction::FrameDefinition(_)
+            | Instruction::WaveformDefinition(_)
+    )
+}
+
+fn body(b: &[Instruction], it: &mut Interner) -> Option<String> {
+    // a definition inside a body is not representable (finding nested-block-definition)
+    if b.iter().any(is_definition) {
+        return None;
+    }
+    let v: Option<Vec<String>> = b.iter().map(|i| instr(i, it)).collect();
+    Some(format!("[{}]", v?.join("; ")))
+}
+
+fn opt_ident(x: &Option<String>, it: &mut Interner) -> String {
+    match x {
+        Some(n) => format!("(Some {})", quilgen::ident(n, it)),
+        None => "None".into(),
+    }
+}
+
+fn idents(xs: &[String], it: &mut Interner) -> String {
+    format!("[{}]", xs.iter().map(|x| quilgen::ident(x, it)).collect::<Vec<_>>().join("; "))
+}
+
+/// The model AST (`item`) of any instruction: a block definition or `Plain` of an `instr`.
+pub fn item(i: &Instruction, it: &mut Interner) -> Option<String> {
+    Some(match i {
+        Instruction::CalibrationDefinition(d) => {
+            let id = &d.identifier;
+            let mods: Vec<&str> = id
+                .modifiers
+                .iter()
+                .map(|m| match m {
+                    GateModifier::Controlled => "MControlled",
+                    GateModifier::Dagger => "MDagger",
+                    GateModifier::Forked => "MForked",
+                })
+                .collect();
+            let ps: Option<Vec<String>> = id.parameters.iter().map(|e| quilgen::expr(e, it)).collect();
+            format!(
+                "DefCal [{}] {} [{}] {} {}",
+                mods.join("; "),
+                quilgen::ident(&id.name, it),
+                ps?.join("; "),
+                qubits(&id.qubits, it)?,
+                body(&d.instructions, it)?
+            )
+        }
+        Instruction::MeasureCalibrationDefinition(d) => format!(
+            "DefCalMeasure {} {} {} {}",
+            opt_ident(&d.identifier.name, it),
+            qubit(&d.identifier.qubit, it)?,
+            opt_ident(&d.identifier.target, it),
+            body(&d.instructions, it)?
+        ),
+        Instruction::CircuitDefinition(d) => format!(
+            "DefCircuit {} {} {} {}",
+            quilgen::ident(&d.name, it),
+            idents(&d.parameters, it),
+            idents(&d.qubit_variables, it),
+            body(&d.instructions, it)?
+        ),
+        Instruction::FrameDefinition(d) => {
+            let attrs: Option<Vec<String>> = d
+                .attributes
+                .iter()
+                .map(|(k, v)| {
+                    Some(format!(
+                        "({}, {})",
+                        quilgen::ident(k, it),
+                        match v {
+                            AttributeValue::String(s) => format!("AVString {}", string_id(s, it)),
+                            AttributeValue::Expression(e) => format!("AVExpr {}", quilgen::expr(e, it)?),
+                        }
+                    ))
+                })
+                .collect();
+            format!("DefFrame {} [{}]", frame(&d.identifier, it)?, attrs?.join("; "))
+        }
+        Instruction::WaveformDefinition(d) => {
+            let mut parts = d.name.split('/');
+            let name = parts.next()?;
+            let ext = parts.next().map(|x| x.to_string());
+            if parts.next().is_some() {
+                return None;
+            }
+            let es: Option<Vec<String>> = d.definition.matrix.iter().map(|e| quilgen::expr(e, it)).collect();
+            format!(
+                "DefWaveform {} {} {} [{}]",
+                quilgen::ident(name, it),
+                opt_ident(&ext, it),
+                idents(&d.definition.parameters, it),
+                es?.join("; ")
+            )
+        }
+        Instruction::GateDefinition(_) => return None,
+        _ => format!("Plain ({})", instr(i, it)?),
     })
 }
